@@ -785,3 +785,125 @@ Proof.
   split; [|vm_compute; reflexivity].
   intros e [E|[E|[]]]; [|discriminate E]. inversion E; subst. intro K. discriminate K.
 Qed.
+
+(* =================================================== the report has no duplicate entries ===== *)
+Inductive subseq {A : Type} : list A -> list A -> Prop :=
+| ss_nil : subseq [] []
+| ss_skip x l1 l2 : subseq l1 l2 -> subseq l1 (x :: l2)
+| ss_take x l1 l2 : subseq l1 l2 -> subseq (x :: l1) (x :: l2).
+
+Lemma subseq_nil_l {A} (l : list A) : subseq [] l.
+Proof. induction l; [apply ss_nil|apply ss_skip; assumption]. Qed.
+Lemma subseq_refl {A} (l : list A) : subseq l l.
+Proof. induction l; [apply ss_nil|apply ss_take; assumption]. Qed.
+Lemma subseq_app {A} (a a' b b' : list A) : subseq a a' -> subseq b b' -> subseq (a ++ b) (a' ++ b').
+Proof.
+  intros H K. induction H; cbn [app]; [exact K|apply ss_skip; assumption|apply ss_take; assumption].
+Qed.
+Lemma subseq_In {A} (l l' : list A) x : subseq l l' -> In x l -> In x l'.
+Proof.
+  intro H. induction H; intro Hin; [destruct Hin|right; auto|].
+  destruct Hin as [->|Hin]; [left; reflexivity|right; auto].
+Qed.
+Lemma subseq_NoDup {A} (l l' : list A) : subseq l l' -> NoDup l' -> NoDup l.
+Proof.
+  intro H. induction H; intro N; [constructor|inversion N; subst; auto|].
+  inversion N; subst. constructor; [|auto]. intro Hin. apply H2. eapply subseq_In; eassumption.
+Qed.
+Lemma subseq_if {A} (c : bool) (x : A) : subseq (if c then [x] else []) [x].
+Proof. destruct c; [apply subseq_refl|apply subseq_nil_l]. Qed.
+Lemma subseq_div bid sl a t r : subseq (div_errs bid sl a t r) [(bid, sl, a, RASTER)].
+Proof. unfold div_errs. destruct (div_ok t r); [apply subseq_nil_l|apply subseq_refl]. Qed.
+
+(* every entry that can ever be reported for one attribute slot / one block, in report order *)
+Definition slot_full (bid : Z) (sl : slot) : list err :=
+  [(bid, sl, A_delay, NEGATIVE_DELAY); (bid, sl, A_delay, RASTER); (bid, sl, A_duration, RASTER);
+   (bid, sl, A_dwell, RASTER); (bid, sl, A_rise_time, RASTER); (bid, sl, A_flat_time, RASTER);
+   (bid, sl, A_fall_time, RASTER)].
+Definition block_full (bid : Z) : list err :=
+  [(bid, SBlock, A_duration, RASTER); (bid, SBlock, A_duration, BLOCK_DURATION_MISMATCH)]
+  ++ slot_full bid SRf ++ slot_full bid SGx ++ slot_full bid SGy ++ slot_full bid SGz
+  ++ slot_full bid SAdc
+  ++ [(bid, SRf, A_delay, RF_DEAD_TIME); (bid, SRf, A_duration, RF_RINGDOWN_TIME)]
+  ++ [(bid, SAdc, A_delay, ADC_DEAD_TIME); (bid, SAdc, A_duration, POST_ADC_DEAD_TIME)].
+
+Lemma subseq_opt_cons {A} (a : list A) x rest l :
+  subseq a [x] -> subseq rest l -> subseq (a ++ rest) (x :: l).
+Proof. intros H K. apply (subseq_app a [x] rest l H K). Qed.
+Lemma subseq_opt_last {A} (a : list A) x l : subseq a [x] -> subseq a (x :: l).
+Proof.
+  intro H. rewrite <- (app_nil_r a). apply (subseq_app a [x] [] l H). apply subseq_nil_l.
+Qed.
+
+Ltac subseq_solve :=
+  repeat first
+    [ apply subseq_nil_l
+    | apply subseq_opt_cons; [first [apply subseq_if | apply subseq_div]|]
+    | apply subseq_opt_last; first [apply subseq_if | apply subseq_div]
+    | apply ss_skip ].
+
+Lemma slot_errs_subseq sys bid sl e : subseq (slot_errs sys bid (sl, e)) (slot_full bid sl).
+Proof.
+  unfold slot_errs, ct_groups, group_errs, slot_full.
+  destruct (e_kind e) eqn:K;
+    cbn [flat_map app fst snd guard_holds has_attr ekind_eqb echeck_errs];
+    rewrite ?K; cbn [flat_map app fst snd guard_holds has_attr ekind_eqb echeck_errs];
+    rewrite ?app_nil_r, <- ?app_assoc; subseq_solve.
+Qed.
+
+Lemma slots_subseq sys bid sl o :
+  subseq (flat_map (slot_errs sys bid) (opt_slot sl o)) (slot_full bid sl).
+Proof.
+  destruct o as [e|]; cbn [opt_slot flat_map]; [|apply subseq_nil_l].
+  rewrite app_nil_r. apply slot_errs_subseq.
+Qed.
+
+Lemma dead_errs_subseq2 sys bid sl e d st t1 a1 k1 t2 a2 k2 :
+  subseq (dead_errs sys bid sl e d st [(t1, a1, k1); (t2, a2, k2)]) [(bid, sl, a1, k1); (bid, sl, a2, k2)].
+Proof. unfold dead_errs. cbn [flat_map fst snd]. rewrite app_nil_r. subseq_solve. Qed.
+
+Lemma check_block_subseq sys b : subseq (check_block sys b) (block_full (b_id b)).
+Proof.
+  unfold check_block, block_full, block_slots. rewrite !flat_map_app.
+  change (raster_of sys ct_block_raster) with (s_block_raster sys).
+  apply (subseq_app _ [(b_id b, SBlock, A_duration, RASTER)]); [apply subseq_div|].
+  apply (subseq_app _ [(b_id b, SBlock, A_duration, BLOCK_DURATION_MISMATCH)]); [apply subseq_if|].
+  rewrite <- !app_assoc.
+  repeat (apply subseq_app; [apply slots_subseq|]).
+  apply subseq_app.
+  - destruct (b_rf b); [apply dead_errs_subseq2|apply subseq_nil_l].
+  - destruct (b_adc b); [apply dead_errs_subseq2|apply subseq_nil_l].
+Qed.
+
+Definition err_key (x : err) : slot * attr * errkind := (snd (fst (fst x)), snd (fst x), snd x).
+Lemma block_full_NoDup bid : NoDup (block_full bid).
+Proof.
+  apply (NoDup_map_inv err_key). unfold block_full, slot_full. cbn [app map err_key fst snd].
+  repeat (constructor; [cbn [In]; intuition discriminate|]). constructor.
+Qed.
+
+Lemma check_block_NoDup sys b : NoDup (check_block sys b).
+Proof. eapply subseq_NoDup; [apply check_block_subseq|apply block_full_NoDup]. Qed.
+
+Lemma check_block_id sys b x : In x (check_block sys b) -> fst (fst (fst x)) = b_id b.
+Proof.
+  intro H. apply (subseq_In _ _ _ (check_block_subseq sys b)) in H.
+  unfold block_full, slot_full in H. cbn [app In] in H.
+  repeat (destruct H as [<-|H]; [reflexivity|]). destruct H.
+Qed.
+
+(* C10: every violated clause is reported ONCE (block ids are the keys of seq.block_events) *)
+Theorem report_no_dup sys bs : NoDup (map b_id bs) -> NoDup (check_timing sys bs).
+Proof.
+  unfold check_timing. induction bs as [|b bs IH]; intro N; cbn [flat_map map] in *; [constructor|].
+  inversion N as [|? ? Hnot N']; subst.
+  assert (D : forall x, In x (check_block sys b) -> ~ In x (flat_map (check_block sys) bs)).
+  { intros x Hx Hy. apply in_flat_map in Hy. destruct Hy as (b' & Hin & Hx').
+    apply check_block_id in Hx. apply check_block_id in Hx'.
+    apply Hnot. rewrite <- Hx, Hx'. apply in_map. exact Hin. }
+  pose proof (check_block_NoDup sys b) as Nb. specialize (IH N').
+  revert Nb D. generalize (check_block sys b) as l. induction l as [|x l IHl]; intros Nb D; cbn [app]; [exact IH|].
+  inversion Nb; subst. constructor.
+  - rewrite in_app_iff. intros [H|H]; [contradiction|]. exact (D x (or_introl eq_refl) H).
+  - apply IHl; [assumption|]. intros y Hy. apply D. right. exact Hy.
+Qed.
